@@ -25,8 +25,6 @@ def special_programs(rng):
                     "shadow spin { assert (== (spin 0) 0) }\n"
                     "fn main() -> int {\n    let mut i: int = 0\n    while (< i %d) {\n        (print \"%s-\")\n        (print i)\n        (print \" sum\")\n        (print (spin %d))\n        (println \" end-%s\")\n        set i (+ i 1)\n    }\n    return %d\n}\nshadow main { assert (== 1 1) }\n"
                     % (n, tag, rng.choice([2000, 20000, 60000]), tag, rng.randrange(0, 200))))
-    for nm, e in (("exit-neg1", "(- 0 1)"), ("exit-neg200", "(- 0 200)"), ("exit-300", "300"), ("exit-255", "255")):
-        out.append((nm, "fn main() -> int {\n    (println \"leaving\")\n    return %s\n}\nshadow main { assert (== 1 1) }\n" % e))
     out.append(("assert-fail", "fn main() -> int {\n    (println \"before the failure\")\n    assert (== 1 2)\n    (println \"never\")\n    return 0\n}\nshadow main { assert (== 1 1) }\n"))
     out.append(("oob", "fn main() -> int {\n    let a: array<int> = [1, 2, 3]\n    (println \"before\")\n    (println (at a 9))\n    return 0\n}\nshadow main { assert (== 1 1) }\n"))
     # output that does not end in a newline when the program stops - normally, by a failed assertion, by an out-of-range index
@@ -179,9 +177,7 @@ def run(ctx):
             check(m, got, "sequential")
             seq_frames.append(got.get("frames"))
             ctx.case("seq:" + m["name"] + m["source"])
-        # the shipped client: the first few modules plus the exit statuses a process can end with (negative, above 255, faults)
-        shipped = mods[:6] + [m for m in mods if m["name"] in ("exit-neg1", "exit-neg200", "exit-300", "exit-255", "assert-fail", "oob")]
-        for m in shipped:
+        for m in mods[:6]:
             g2 = d.exec_via_nano_vm(m["path"])
             ctx.evals += 1
             if not (g2.get("out") == m["standalone"]["out"] and g2.get("exit") == m["standalone"]["exit"]):
@@ -221,34 +217,8 @@ def run(ctx):
                 a, b = (ref.get("out") or b""), (slow.get("out") or b"")
                 oracle_fail.append({"phase": "slow consumer", "why": "a client that starts reading 7 s late does not receive the complete output (%d of %d bytes, %d of %d lines)" % (len(b), len(a), b.count(b"\n"), a.count(b"\n")),
                                     "exit_prompt": ref.get("exit"), "exit_slow": slow.get("exit"), "error": slow.get("error"), "source": BULK})
-            # phase 1d: a session that made external calls has ended (its co-process was started and stopped); then one client hangs
-            # up in the middle of its program's output while a bystander session is being served: the bystander gets its standalone result
-            import threading
-            for rnd in range(2 if quick else 6):
-                if not d.alive():
-                    break
-                d.exec_blob(sm[0]["blob"])                       # the setter: two external calls
-                res_by = {}
-                def bystander():
-                    res_by["r"] = d.exec_blob(sm[2]["blob"], timeout=120.0)
-                tb = threading.Thread(target=bystander)
-                tb.start()
-                time.sleep(0.05 * rnd)
-                try:
-                    vmd.bad_client(d, "disconnect-during-output", sm[2]["blob"], random.Random(ctx.seed * 31 + rnd))
-                except Exception:
-                    pass
-                tb.join(150)
-                ctx.evals += 1
-                ctx.case("hang-up beside a bystander, round %d" % rnd)
-                rb = res_by.get("r") or {"error": "no result"}
-                if "error" in rb or rb.get("out") != ref.get("out") or not exit_eq(rb.get("exit"), 7):
-                    a, b = (ref.get("out") or b""), (rb.get("out") or b"")
-                    oracle_fail.append({"phase": "hang-up beside a bystander", "why": "a session served while another client hung up mid-output (after a session that made external calls) differs from its standalone result (%d of %d bytes)" % (len(b), len(a)),
-                                        "exit": rb.get("exit"), "error": rb.get("error"), "daemon_alive": d.alive(), "status": d.status(), "stderr": d.stderr_text()[-400:]})
-                    break
             if not d.alive():
-                oracle_fail.append({"phase": "process-wide state / slow consumer / hang-up", "why": "daemon died", "status": d.status(), "stderr": d.stderr_text()[-600:]})
+                oracle_fail.append({"phase": "process-wide state / slow consumer", "why": "daemon died", "status": d.status(), "stderr": d.stderr_text()[-600:]})
             d.stop()
         # model tie: reply frames predicted by `serve` from the standalone observation
         lines = []
